@@ -26,12 +26,12 @@ CHECKS = {
         text="Machine-checked proofs (Coq + Coquelicot): for EVERY element-wise Operation class of MyGrad (50 classes: arithmetic, exp/log, trigonometric and inverse, hyperbolic and inverse, abs/sqrt/cbrt, "
              "sinc, ELU/SELU/sigmoid/ReLU) and every operand, at EVERY point of the differentiable domain, is_derive (g * forward) = the formula backward_var returns -- over Gen/VjpScalar.v, which a "
              "fail-closed ast translator regenerates from /repo on every run by symbolically executing each class' forward and backward_var; the documented conventions (|x|' = 0 at 0, arcsin/arccos/arccsc/"
-             "arcsec 0 at +-1, sinc 0 at 0) are theorems too. Index / bilinear / piecewise-linear operations: the exact-registry theorem (every registry op has an exact VJP over any commutative ring). Ties on "
+             "arcsec 0 at +-1, sinc 0 at 0) are theorems too. Lane reductions (sum, mean, var, std, prod incl. zeros, softmax, logsoftmax, cross-entropy) for lanes of any length (Model/VecOps.v, hand-written + tied lane by lane). Index / bilinear / selection operations incl. conv_nd and max_pool: the exact-registry theorem (every registry op has an exact VJP over any commutative ring). Ties on "
              "every run: translated formulas vs the classes run through Tensor._op on point grids (incl. 0, +-1, singular points); RealOps meanings vs NumPy; 2175 exact-integer single-op programs with systematic "
              "options (all axis forms, keepdims, broadcasting, 0-d, indices, einsum/matmul shapes, max/min selection) compared in Coq; plus a numerical catalogue of ~1140 op x option entries incl. nnet layers/losses.",
         design_ref="DESIGN.md 3 (C02)",
-        note="Partial: proofs are over the reals (rounding not modelled) and cover element-wise formulas + the exact registry; prod, cumprod, mean, var, std, norm, clip, softmax family, conv_nd, max_pool, batchnorm, gru "
-             "and the losses are covered only by the numerical catalogue (4th-order finite differences of MyGrad's own forward, tol 2e-6) = validation, not proof. NumPy kernels are assumed to compute the real functions "
+        note="Partial: proofs are over the reals (rounding not modelled) and cover element-wise formulas + the exact registry; cumprod, norm, clip, batchnorm, gru "
+             "and the remaining losses are covered only by the numerical catalogue (4th-order finite differences of MyGrad's own forward, tol 2e-6) = validation, not proof. NumPy kernels are assumed to compute the real functions "
              "of Model/RealOps.v (checked numerically each run). Axioms: the standard library's real-number axioms (ClassicalDedekindReals.sig_not_dec, sig_forall_dec, functional_extensionality_dep) via Reals/Coquelicot.",
         technique="Coq/Coquelicot derivative proofs over formulas translated from source on every run + exact-integer correspondence in Coq + numerical catalogue",
     ),
